@@ -25,6 +25,7 @@ def run(chk):
     r09c(chk)
     r09d(chk)
     r09e(chk)
+    r09g(chk)
     from .c10 import r10e
 
     r10e(chk, 'R09.f')
@@ -189,27 +190,8 @@ def r09b(chk, rid='R09.b'):
         chk.ob(rid, SHEET, q, '@variables ordered add: the scan stops only at kinds that cannot precede @import/@namespace', not bad,
                f'stops at {sorted(bad)}, which may precede an @import or @namespace')
         chk.ob(rid, SHEET, q, '@variables: rejected before any later @charset/@import/@namespace', want <= v['after'], f'{sorted(want - v["after"])}')
-    # @charset: index 0 and no second one
-    ctest, cbody = branches[frozenset({'CHARSET_RULE'})]
-    conds = [text(x.test) for x in ast.walk(ast.Module(body=cbody, type_ignores=[])) if isinstance(x, ast.If)]
-    ok = any('index != 0' in c and 'self._cssRules[0].type == rule.CHARSET_RULE' in c and ' or ' in c for c in conds)
-    chk.ob(rid, SHEET, q, '@charset: only at index 0 and only if there is none yet', ok, f'conditions: {conds}')
-    # comment / unknown: not before @charset
-    fk = frozenset({'UNKNOWN_RULE', 'COMMENT'})
-    if fk not in branches:
-        raise AnalysisError('insertRule: comment/unknown branch not found')
-    ftest, fbody = branches[fk]
-    conds = [text(x.test) for x in ast.walk(ast.Module(body=fbody, type_ignores=[])) if isinstance(x, ast.If)]
-    ok = any('index == 0' in c and 'self._cssRules[0].type == rule.CHARSET_RULE' in c for c in conds)
-    chk.ob(rid, SHEET, q, 'comment/unknown: not in front of @charset', ok, f'conditions: {conds}')
-    # the index range check precedes everything
-    first_raise = [n for n in ast.walk(fn) if isinstance(n, ast.Raise) and 'IndexSizeErr' in text(n)]
-    okr = False
-    for r in first_raise:
-        par = chk.repo.mod(SHEET).parents.get(r)
-        if isinstance(par, ast.If) and 'index < 0' in text(par.test) and 'index > self._cssRules.length' in text(par.test):
-            okr = True
-    chk.ob(rid, SHEET, q, 'index outside 0..length is rejected', okr, 'range test `index < 0 or index > length` not found')
+    # @charset only first and only once, comments/unknown rules not in front of it, and the index range
+    # are decided by evaluation in R09.g
 
 
 # ---------------------------------------------------------------------------
@@ -483,3 +465,136 @@ def r09e(chk, rid='R09.e'):
         raise AnalysisError('CSSMediaRule atrule: deny tuple not found')
     want = {'@charset ', '@font-face', '@import', '@namespace'}
     chk.ob(rid, MEDIA, 'CSSMediaRule._setCssText.atrule', f'parse-time deny list contains {sorted(want)}', want <= tup, f'missing {sorted(want - tup)}')
+
+
+# ---------------------------------------------------------------------------
+# R09.g - insertRule evaluated as the inductive step of the ordering invariant
+KINDS = {'charset': 2, 'import': 3, 'namespace': 10, 'variables': 1008, 'style': 1, 'media': 4, 'comment': 1001, 'unknown': 0}
+TYPE_CONSTS = dict(CHARSET_RULE=2, IMPORT_RULE=3, NAMESPACE_RULE=10, VARIABLES_RULE=1008, STYLE_RULE=1, MEDIA_RULE=4, PAGE_RULE=6, FONT_FACE_RULE=5, COMMENT=1001, UNKNOWN_RULE=0, MARGIN_RULE=1006)
+_BODYK = ('style', 'media')
+
+
+def order_ok(kinds):
+    """The ordering clause of the property, strengthened to an inductive invariant: @variables
+    ranks with the body rules (the code never lets @import/@namespace follow it, and relies on
+    that); comments and unknown rules are not ranked."""
+    if kinds.count('charset') > 1 or ('charset' in kinds and kinds[0] != 'charset'):
+        return False
+    rank = {'import': 1, 'namespace': 2, 'variables': 4, 'style': 4, 'media': 4}
+    seen = 0
+    for k in kinds:
+        r = rank.get(k)
+        if r is None:
+            continue
+        if r < seen:
+            return False
+        seen = max(seen, r)
+    return True
+
+
+def _insert_case(args):
+    fnsrc_rel, start, newkind, index, in_order = args
+    from sa.absint import Evaluator, Obj, Raised, Record
+    from sa.core import Repo
+
+    global _R09G
+    repo, m, fn = _R09G
+
+    class RuleList(list):
+        @property
+        def length(self):
+            return len(self)
+
+    class Sheet(Record):
+        def __iter__(self):
+            return iter(self._cssRules)
+
+    class CSSRuleListM:
+        pass
+
+    def mk(kind, n):
+        extra = {}
+        if kind == 'namespace':
+            extra = dict(prefix=f'p{n}', namespaceURI=f'uri{n}')
+        if kind == 'charset':
+            extra = dict(encoding=f'enc{n}')
+        if kind == 'import':
+            extra = dict(hrefFound=True, href='x')
+        return Obj(type=KINDS[kind], kind=kind, wellformed=True, _parentStyleSheet=None, **TYPE_CONSTS, **extra)
+
+    errors = []
+    rules = RuleList(mk(k, i) for i, k in enumerate(start))
+    me = Sheet(_cssRules=rules, _checkReadonly=lambda: None, _log=Record(error=lambda *a, **k: errors.append(k.get('error', 'error'))))
+    for r in rules:
+        r._parentStyleSheet = me
+    me.namespaces = {r.prefix: r.namespaceURI for r in rules if r.kind == 'namespace'}
+    new = mk(newkind, 99)
+    intr = {'self._cleanNamespaces': lambda: None, 'self._updateVariables': lambda: None, 'self._log.error': lambda *a, **k: errors.append(k.get('error', 'error')),
+            'cssutils.css.CSSRuleList': CSSRuleListM, 'xml': Record(dom=Record(HierarchyRequestErr='HierarchyRequestErr', IndexSizeErr='IndexSizeErr'))}
+    ev = Evaluator(fn, intrinsics=intr, model_types=(RuleList,), module=m, cls='CSSStyleSheet')
+    res = ev.run(self=me, rule=new, index=index, inOrder=in_order)
+    after = [r.kind for r in me._cssRules]
+    problems = []
+    if isinstance(res, Raised):
+        if res.kind != 'IndexSizeErr' or list(after) != list(start):
+            problems.append(f'raises {res.kind}')
+    if not order_ok(after):
+        problems.append(f'the list becomes {after}')
+    inlist = any(r is new for r in me._cssRules)
+    if inlist != (new._parentStyleSheet is me):
+        problems.append('the rule is in the list without naming the sheet as parent' if inlist else 'the rule names the sheet as parent but is not in the list')
+    if inlist and errors:
+        problems.append('an error is reported although the rule was inserted')
+    if not inlist and len(after) != len(start):
+        problems.append(f'rules were lost: {after}')
+    if index is not None and index > len(start):
+        if not (isinstance(res, Raised) and res.kind == 'IndexSizeErr') or inlist:
+            problems.append('an index beyond the end is not rejected with IndexSizeErr')
+    elif not in_order and inlist and index is not None and not isinstance(res, Raised) and me._cssRules[index] is not new:
+        problems.append(f'inserted at another index than {index}')
+    for r in me._cssRules:
+        if r is not new and r._parentStyleSheet is not me:
+            problems.append('another rule lost its parent')
+    return (start, newkind, index, in_order, problems)
+
+
+_R09G = None
+
+
+def r09g(chk, rid='R09.g'):
+    chk.rule(rid, 'inductive step of the ordering clause, by evaluation: CSSStyleSheet.insertRule is evaluated on its syntax tree (helpers resolved in the class; namespace clean-up, variable update and logging are model stubs in log mode) from every rule list of up to two rules (thorough tier: three) over eight rule kinds that satisfies the order, for every kind of new rule, every index and ordered add: afterwards the list still satisfies the order, the new rule is in the list iff it names the sheet as parent, nothing else was removed or re-parented, an accepted positional insert lands at the requested index, and an error is reported only when nothing was inserted')
+    import itertools
+    import multiprocessing as mp
+
+    global _R09G
+    m = chk.repo.mod(SHEET)
+    _R09G = (chk.repo, m, m.get('CSSStyleSheet.insertRule'))
+    maxlen = 3 if chk.tier == 'thorough' else 2
+    jobs = []
+    for n in range(maxlen + 1):
+        for start in itertools.product(sorted(KINDS), repeat=n):
+            if not order_ok(list(start)):
+                continue
+            for newkind in sorted(KINDS):
+                for index in list(range(n + 1)) + [None, n + 1]:
+                    for in_order in (False, True):
+                        jobs.append((SHEET, start, newkind, index, in_order))
+    try:
+        ctx = mp.get_context('fork')
+        with ctx.Pool(min(12, mp.cpu_count())) as pool:
+            results = pool.map(_insert_case, jobs, chunksize=max(1, len(jobs) // 96))
+    except Exception as e:  # noqa: BLE001 - nested pools / restricted environments: evaluate in this process
+        if isinstance(e, AnalysisError):
+            raise
+        results = [_insert_case(j) for j in jobs]
+    bad = [r for r in results if r[4]]
+    chk.extra['insertRule_cases_evaluated'] = len(results)
+    seen = set()
+    for start, newkind, index, in_order, problems in bad:
+        key = (newkind, in_order, problems[0].split(' [')[0][:40])
+        if key in seen:
+            continue
+        seen.add(key)
+        chk.ob(rid, SHEET, 'CSSStyleSheet.insertRule', f'insert {newkind} ({"ordered add" if in_order else "positional"}): order and parent links preserved', False,
+               f'from {list(start)}, index={index}: ' + '; '.join(problems))
+    chk.ob(rid, SHEET, 'CSSStyleSheet.insertRule', f'all {len(results)} (rule list, new rule, index, mode) cases preserve the order and the parent links', not bad, f'{len(bad)} cases fail')
